@@ -25,7 +25,7 @@ def main():
         mp = os.path.join(d, 'meta.json')
         meta = json.load(open(mp))
         if meta.get('obsolete_since'):
-            print(name, 'OBSOLETE since', meta['obsolete_since'].get(
+            print(name, 'NOT-COUNTED', meta['obsolete_since'].get(
                 'repo_commit'))
             continue
         pid = meta.get('breaks_property') or meta.get('property')
